@@ -166,7 +166,7 @@ var hostileDatasets = []string{"full", "empty", "single-sample", "all-nan"}
 
 func hostileQueries() []string {
 	var qs []string
-	ks := []string{"0", "-1", "NaN", "Inf", "-Inf", "1e19", "0.5", "1.9", "100", "scalar(m1)", "scalar(nosuch)", "time() - time()", "-0"}
+	ks := []string{"0", "-1", "NaN", "Inf", "-Inf", "1e19", "0.5", "1.9", "100", "9223372036854775808", "9223372036854774784", "-9223372036854775808", "-9223372036854777856", "scalar(m1)", "scalar(nosuch)", "time() - time()", "-0"}
 	for _, op := range []string{"topk", "bottomk"} {
 		for _, k := range ks {
 			qs = append(qs, fmt.Sprintf("%s(%s, m0)", op, k), fmt.Sprintf("%s by (a) (%s, m0)", op, k), fmt.Sprintf("sum(%s(%s, m0))", op, k), fmt.Sprintf("%s(%s, rate(m0[1m]))", op, k))
